@@ -1,15 +1,15 @@
 (* C02 (text clause) - everything Text::draw draws lies inside Text::bounding_box(); a transparent
    character style draws nothing.  Statements only; proofs in Proofs/Textbox.v, Proofs/Textbuiltin.v.
    Vocabulary: see Properties/C14.v and C15.v.  text_ok f s ts pos text = every line that Text::lines yields is
-   inside the coordinate range (draw_ok) and advance_consistent (spacing 0, or a text/background colour set,
+   inside the coordinate range (draw_ok), its glyph indices fit MonoFont::glyph's arithmetic (index_ok, see C14) and it is advance_consistent (spacing 0, or a text/background colour set,
    or the line is empty); deco_inside f = strikethrough offset + height <= character height (part of font_wf);
-   text_in_range = the draw_ok half of text_ok. *)
+   lines_in_range = the draw_ok part of text_ok (index_ok and spacing 0 are proved for the built-in fonts). *)
 From EG Require Import Base.Prelude Model.Geometry Proofs.Geometry Model.Fontmodel Proofs.Fontmodel
   Model.Textmodel Proofs.Textmodel Proofs.Textbox Gen.FontTable Model.Fontbuiltin Proofs.Fontbuiltin Proofs.Textbuiltin.
 
 (* one line: glyph cells, spacing fills and both decoration rectangles lie in the measure_string box *)
 Theorem C02_text_line_drawn_in_measured_box : forall F s line p b q,
-  font_ok (mf_geom F) -> deco_inside (mf_geom F) -> draw_ok (mf_geom F) p (length line) ->
+  font_ok (mf_geom F) -> deco_inside (mf_geom F) -> draw_ok (mf_geom F) p (length line) -> index_ok F line ->
   advance_consistent (mf_geom F) s line ->
   render (fst (draw_string F s line p b)) q <> None ->
   contains (fst (measure_string (mf_geom F) s line p b)) q = true.
@@ -17,7 +17,7 @@ Proof. exact line_drawn_in_box. Qed.
 
 (* every font record with font_wf's geometry, every style, alignment, baseline, line height, string *)
 Theorem C02_text_drawn_in_bbox : forall F s ts pos text q,
-  font_ok (mf_geom F) -> deco_inside (mf_geom F) -> text_ok (mf_geom F) s ts pos text ->
+  font_ok (mf_geom F) -> deco_inside (mf_geom F) -> text_ok F s ts pos text ->
   render (fst (text_draw F s ts pos text)) q <> None ->
   contains (text_bbox (mf_geom F) s ts pos text) q = true.
 Proof. exact text_drawn_in_bbox. Qed.
@@ -26,10 +26,10 @@ Theorem C02_text_font_wf_suffices : forall f, font_wf f -> font_ok f /\ deco_ins
 Proof. exact font_wf_deco_inside. Qed.
 
 (* every built-in font (any glyph data, any index function), by reflection over the regenerated table *)
-Theorem C02_text_builtin_drawn_in_bbox : forall b idx atlas s ts pos text q,
+Theorem C02_text_builtin_drawn_in_bbox : forall b atlas s ts pos text q,
   In b fonts ->
-  let F := MFont (bf_font b) idx atlas in
-  text_in_range (bf_font b) s ts pos text ->
+  let F := MFont (bf_font b) (builtin_index b) atlas in
+  lines_in_range (bf_font b) s ts pos text ->
   render (fst (text_draw F s ts pos text)) q <> None ->
   contains (text_bbox (bf_font b) s ts pos text) q = true.
 Proof. exact builtin_text_drawn_in_bbox. Qed.
